@@ -75,6 +75,11 @@ def valid_case(case):
                 return False
         if case.get('mutate') and not (case['mutate']['mbs'] >= 1 and case['mutate']['at'] >= 0):
             return False
+        if case.get('raise_type', 'BatchBoom') not in ('BatchBoom', 'KeyError', 'ValueError', 'RuntimeError', 'LookupError',
+                                                      'TimeoutError', 'OSError'):
+            return False
+        if not all(t >= 0 for t in case.get('gc_at') or ()):
+            return False
         return case.get('fresh', 0) >= 0
     except (KeyError, TypeError):
         return False
@@ -228,12 +233,11 @@ def judge_limits(case, hist):
         if k - nopen >= cfg['mcb'] and len(ends) >= k - cfg['mcb'] + 1:
             t_free = ends[k - cfg['mcb']]
         full = len(ids) >= lim
-        # "(once a concurrency slot is free)": while no slot was free the statement does not
-        # say how the wait is accounted, so allow a full batch_timeout after the slot freed up
-        if t_free > last + EPS:
-            deadline = t_free + bt
-        else:
-            deadline = last + (0 if full and len(mbs_log) == 1 else bt)
+        # "no later than batch_timeout after the last arrival that joined its batch (once a concurrency slot is
+        # free)": the batch is due batch_timeout after its last arrival (at once when full), or the moment a slot
+        # frees up if that is later.  (An earlier, more lenient reading that granted another batch_timeout after
+        # the slot freed was dropped: two independent readers of the statement took it strictly.)
+        deadline = max(last + (0 if full and len(mbs_log) == 1 else bt), t_free)
         if b['start'] > deadline + EPS and nopen == 0:
             out.append(V('late-batch', f'batch {b["id"]} (items {ids}) started at {b["start"]:.4f}; last arrival {last:.4f}, '
                          f'batch_timeout {bt}, slot free at {t_free:.4f}', 'late-batch'))
